@@ -1,4 +1,125 @@
-(* C08 — placeholder while the tie is brought up; replaced below. *)
-From MT Require Import Types Encode.
-Example ex_c08_stub : encodable (TList TAny) = true.
-Proof. reflexivity. Qed.
+(* C08 — types and call traces survive serialisation unchanged.
+   Model: Model/Encode.v (encoding.py, util.get_name_in_module/get_func_in_module on JSON trees).
+   External behaviour is universally quantified: cname/fname (the __module__/__qualname__ of classes and
+   functions), env (what importlib + getattr find for a name), hidden (_HIDDEN_BUILTIN_TYPES' classes),
+   site (the module that constructed the TypedDict classes below the encoded type).
+     importable cname env hidden c : the class's own (module, qualname) resolves back to class c
+     importable_func fname env f   : get_func_in_module (unwrap, __func__, read-only fget) of f's own name is f
+     typing_ok env                 : typing.Any / Union / List / ... are what the typing module exports
+     inferable t                   : no Tuple[T, ...] / forward reference below t, every Union in typing's
+                                     normal form, TypedDict keys distinct (true of every type get_type /
+                                     shrink_types / the shipped rewriters build, Tuple[T, ...] excepted)
+   Known defects outside these premises: Refuted/C08.v. *)
+From MT Require Import Types Encode EncodeRoundtrip EncodeStruct EncodeExamples.
+Open Scope string_scope.
+
+(* every inferable type over importable classes encodes, decodes, and comes back structurally identical
+   (corrb: union members as multisets, TypedDict fields as finite maps) — for ALL types, by induction *)
+Theorem type_roundtrip :
+  forall (cname : cls -> string * string) (site : string) (env : string -> string -> lookup)
+         (hidden : string -> option cls) (t : ty),
+    typing_ok env ->
+    inferable t /\ Forall (importable cname env hidden) (classes t) ->
+    exists j t', type_to_json cname site t = Ok j /\ type_from_json env hidden j = Ok t' /\ corrb t t' = true.
+Proof. exact type_roundtrip_ok. Qed.
+Print Assumptions type_roundtrip.
+
+Example ex_type_roundtrip :
+  typing_ok ex_ev
+  /\ (inferable ex_t /\ Forall (importable ex_cn ex_ev ex_hd) (classes ex_t))
+  /\ exists j t', type_to_json ex_cn "monkeytype.typing" ex_t = Ok j /\ type_from_json ex_ev ex_hd j = Ok t'
+                  /\ corrb ex_t t' = true /\ has_td t' = true /\ ty_eqb ex_t t' = false.
+Proof.
+  split; [exact ex_typing_ok|]. split; [exact ex_t_ok|]. eexists. eexists.
+  split; [vm_compute; reflexivity|]. split; [vm_compute; reflexivity|]. repeat split; vm_compute; reflexivity.
+Qed.
+
+(* nothing observed (None) stays NULL and reads back as nothing; an observed type — NoneType included —
+   never encodes to NULL or "null", never reads back as nothing, and reads back as itself *)
+Theorem absent_vs_none :
+  forall (cname : cls -> string * string) (site : string) (env : string -> string -> lookup)
+         (hidden : string -> option cls),
+    maybe_encode_type cname site None = Ok None
+    /\ maybe_decode_type env hidden None = Ok None
+    /\ maybe_decode_type env hidden (Some JNull) = Ok None
+    /\ (forall t e, maybe_encode_type cname site (Some t) = Ok e ->
+          e <> None /\ e <> Some JNull /\ maybe_decode_type env hidden e <> Ok None)
+    /\ (forall t, typing_ok env -> inferable t /\ Forall (importable cname env hidden) (classes t) ->
+          exists j t', maybe_encode_type cname site (Some t) = Ok (Some j)
+                       /\ maybe_decode_type env hidden (Some j) = Ok (Some t') /\ corrb t t' = true).
+Proof. exact absent_vs_none_ok. Qed.
+Print Assumptions absent_vs_none.
+
+Example ex_absent_vs_none :
+  (inferable (TCls cNone) /\ Forall (importable ex_cn ex_ev ex_hd) (classes (TCls cNone)))
+  /\ exists j, maybe_encode_type ex_cn "monkeytype.typing" (Some (TCls cNone)) = Ok (Some j)
+               /\ maybe_decode_type ex_ev ex_hd (Some j) = Ok (Some (TCls cNone))
+               /\ maybe_encode_type ex_cn "monkeytype.typing" None = Ok None.
+Proof.
+  split; [split; [repeat split|repeat constructor]|]. eexists. repeat split; vm_compute; reflexivity.
+Qed.
+
+(* a call trace of an importable function over inferable types decodes back to the same function, argument
+   types, return type and yield type; absent return / yield stay absent at the row and after decoding *)
+Theorem trace_roundtrip :
+  forall (cname : cls -> string * string) (fname : fid -> string * string) (site : string)
+         (env : string -> string -> lookup) (hidden : string -> option cls) (tr : trace),
+    typing_ok env ->
+    ok_trace cname fname env hidden tr ->
+    exists r d,
+      from_trace cname fname site tr = Ok r
+      /\ to_trace env hidden r = Ok d
+      /\ r_module r = fst (fname (tr_func tr)) /\ r_qualname r = snd (fname (tr_func tr))
+      /\ dt_func d = OFunc (tr_func tr)
+      /\ args_corrb (tr_args tr) (dt_args d) = true
+      /\ opt_corrb (tr_ret tr) (dt_ret d) = true
+      /\ opt_corrb (tr_yield tr) (dt_yield d) = true
+      /\ (tr_ret tr = None <-> r_ret r = None) /\ (tr_ret tr = None <-> dt_ret d = None)
+      /\ (tr_yield tr = None <-> r_yield r = None) /\ (tr_yield tr = None <-> dt_yield d = None).
+Proof. exact trace_roundtrip_ok. Qed.
+Print Assumptions trace_roundtrip.
+
+(* serialize_traces drops no such trace *)
+Theorem serialize_traces_keeps :
+  forall (cname : cls -> string * string) (fname : fid -> string * string) (site : string)
+         (env : string -> string -> lookup) (hidden : string -> option cls) (trs : list trace),
+    Forall (ok_trace cname fname env hidden) trs ->
+    List.length (serialize_traces cname fname site trs) = List.length trs.
+Proof. exact serialize_traces_keeps_ok. Qed.
+Print Assumptions serialize_traces_keeps.
+
+Example ex_trace_roundtrip :
+  ok_trace ex_cn ex_fn ex_ev ex_hd ex_trace
+  /\ importable_func ex_fn ex_ev 1 /\ importable_func ex_fn ex_ev 2 /\ importable_func ex_fn ex_ev 3
+  /\ ~ importable_func ex_fn ex_ev 4          (* a property with a setter is not importable *)
+  /\ exists r d, from_trace ex_cn ex_fn "monkeytype.typing" ex_trace = Ok r /\ to_trace ex_ev ex_hd r = Ok d
+                 /\ dt_func d = OFunc 1 /\ dt_ret d = Some (TCls cNone) /\ dt_yield d = None /\ r_yield r = None.
+Proof.
+  split; [exact ex_trace_ok|]. split; [reflexivity|]. split; [reflexivity|]. split; [reflexivity|].
+  split; [vm_compute; discriminate|]. eexists. eexists.
+  split; [vm_compute; reflexivity|]. split; [vm_compute; reflexivity|]. repeat split.
+Qed.
+
+(* encoding is a function of the structure: reordering TypedDict fields does not change the JSON —
+   for TypedDict classes constructed in the same module (one `site` on both sides; without that premise
+   the statement is false, Refuted/C08.v td_site_refuted) *)
+Theorem encode_structural :
+  forall (cname : cls -> string * string) (site : string) (env : string -> string -> lookup)
+         (hidden : string -> option cls) (t1 t2 : ty),
+    inferable t1 /\ Forall (importable cname env hidden) (classes t1) ->
+    inferable t2 /\ Forall (importable cname env hidden) (classes t2) ->
+    fields_perm t1 t2 ->
+    type_to_json cname site t1 = type_to_json cname site t2.
+Proof. exact encode_structural_ok. Qed.
+Print Assumptions encode_structural.
+
+Example ex_encode_structural :
+  (inferable ex_t /\ Forall (importable ex_cn ex_ev ex_hd) (classes ex_t))
+  /\ (inferable ex_t_perm /\ Forall (importable ex_cn ex_ev ex_hd) (classes ex_t_perm))
+  /\ fields_perm ex_t ex_t_perm /\ ty_eqb ex_t ex_t_perm = false
+  /\ exists j, type_to_json ex_cn "monkeytype.typing" ex_t = Ok j
+               /\ type_to_json ex_cn "monkeytype.typing" ex_t_perm = Ok j.
+Proof.
+  split; [exact ex_t_ok|]. split; [exact ex_t_perm_ok|]. split; [exact ex_fields_perm|].
+  split; [vm_compute; reflexivity|]. eexists. split; vm_compute; reflexivity.
+Qed.
